@@ -220,18 +220,9 @@ func (c *MJWrapperComponent) renderFullWidthToWriter(w io.StringWriter) error {
 	cssClass := c.getAttribute("css-class")
 	wrapperBgColor := c.getAttribute("background-color")
 
-	// Calculate effective content width by subtracting horizontal padding and border widths
-	effectiveWidth := c.GetEffectiveWidth() - c.getBorderWidth()
-	if pl := c.getAttribute(constants.MJMLPaddingLeft); pl != "" {
-		if px, err := styles.ParsePixel(pl); err == nil && px != nil {
-			effectiveWidth -= int(px.Value)
-		}
-	}
-	if pr := c.getAttribute(constants.MJMLPaddingRight); pr != "" {
-		if px, err := styles.ParsePixel(pr); err == nil && px != nil {
-			effectiveWidth -= int(px.Value)
-		}
-	}
+	// Effective content width: the same box as a boxed wrapper's (borders, padding shorthand,
+	// per-side paddings); full-width only changes the outer table.
+	effectiveWidth := c.getEffectiveWidth()
 
 	continueMSOComment := false
 	if c.RenderOpts != nil && c.RenderOpts.PendingMSOSectionClose {
